@@ -62,6 +62,7 @@ type c22env struct {
 	multi   bool // the universe has a tx with >= 2 inputs
 	maxPool int
 	wasFull bool // len(pool) reached maxNewTxNum at some point of this case
+	removed bool // RemoveTransaction took a pooled tx out at some point of this case
 	nSig    map[string]int
 }
 
@@ -102,7 +103,7 @@ func (e *c22env) reset(line string) error {
 	e.txs, e.order, e.conf = map[int]*c22tx{}, nil, map[int]bool{}
 	e.outCode, e.txCode = map[bc.Hash]int{}, map[bc.Hash]int{}
 	e.tAfter, e.multi = nil, false
-	e.maxPool, e.wasFull = maxPool, false
+	e.maxPool, e.wasFull, e.removed = maxPool, false, false
 	for _, o := range conf {
 		e.conf[o] = true
 	}
@@ -291,12 +292,21 @@ func c22has(xs []int, x int) bool {
 // oracle evaluates the invariants on the dump; the first violated clause is reported.
 func (e *c22env) oracle(op string, d c22dump) {
 	avail := func(o int) bool { _, ok := d.utxo[o]; return ok || e.conf[o] }
+	// cause tag of a violated clause: the two recorded open causes are (P22) a pool that reached
+	// its limit inside processOrphans and (B22) a pooled parent that was removed after its index
+	// bucket had been deleted (only multi-input orphans can be hit); anything else is unlisted
 	arity := func(t int) string {
+		multi := false
 		if x, ok := e.txs[t]; ok && len(x.ins) >= 2 {
-			return "multi-input orphan"
+			multi = true
 		}
-		if e.wasFull {
-			return "single-input orphan after the pool limit was reached"
+		switch {
+		case e.wasFull:
+			return "after the pool limit was reached"
+		case multi && e.removed:
+			return "multi-input orphan after a pooled transaction was removed"
+		case multi:
+			return "multi-input orphan"
 		}
 		return "single-input orphan"
 	}
@@ -441,6 +451,9 @@ func (e *c22env) line(l string) {
 		}
 	case "remove":
 		if t, ok := e.txs[n]; ok {
+			if e.pool.IsTransactionInPool(&t.tx.ID) {
+				e.removed = true
+			}
 			e.pool.RemoveTransaction(&t.tx.ID)
 		} else {
 			h := c22srcHash(n)
